@@ -1,4 +1,5 @@
 import TwistedModel.Log.Format
+import TwistedProps.C55.NoKI
 /-!
 C55 — log formatting never raises.
 
@@ -314,5 +315,400 @@ theorem repaired_on_the_six_witnesses :
     isText (eventAsText { ev0 with failure := some .hostile } all3 .default ⟨[.none], []⟩)
       "- [-#-] hello\n(UNABLE TO OBTAIN TRACEBACK FROM EVENT):getTraceback returned NoneType, not str" = true := by
   decide
+
+/-! ### The legacy path: `twisted.python.log.textFromEventDict` / `_safeFormat`
+
+`textFromEventDict` returns a text or `None` for every legacy event dict and every tape —
+**except** that `_safeFormat` deliberately re-raises `KeyboardInterrupt`
+(`except KeyboardInterrupt: raise`) out of its first attempt `fmtString % fmtDict`
+(recorded finding `raises:_safeFormat/reraise-KeyboardInterrupt`).  The theorems make that the
+*only* way out: `textFromEventDict_raises_iff` characterises every raising run,
+`textFromEventDict_total` is totality under the hypothesis that the first `%` does not end in
+`KeyboardInterrupt`, `textFromEventDict_total_of_noKI_tape` discharges the hypothesis for every
+tape without such an outcome, and `textFromEventDict_counterexample` is the finding. -/
+
+section LegacyPath
+open Twisted.Log.Format.Legacy
+
+theorem safeStrVal_total (v : Val) : Returns (safeStrVal v) := by
+  unfold safeStrVal
+  exact returns_tryAll _ fun _ => returns_ret safeStrMark
+
+/-- `" ".join(map(safe_str, message))` never raises, whatever the `str` of each element does -/
+theorem safeStrAll_total (vs : List Val) : Returns (safeStrAll vs) := by
+  induction vs with
+  | nil => exact returns_ret []
+  | cons v rest ih =>
+    unfold safeStrAll
+    exact returns_bind (safeStrVal_total v) fun t => returns_bind ih fun ts => returns_ret _
+
+theorem whyText_total (w : Option Val) : Returns (whyText w) := by
+  unfold whyText
+  split
+  · exact returns_ret _
+  · exact returns_ret _
+  · split
+    · exact returns_ret _
+    · exact returns_ret _
+  · exact safeStrVal_total _
+
+/-- the guarded `failure.getTraceback()` of the legacy path never raises (raise anything, return a
+    non-text, a `failure` without `getTraceback`) -/
+theorem legacyTraceback_total (f : Val) : Returns (legacyTraceback f) := by
+  unfold legacyTraceback
+  exact returns_tryAll _ fun e =>
+    returns_bind (safeStrExc_total e) fun t => returns_ret (unableLegacyTb ++ t)
+
+/-- the three nested fallbacks of `_safeFormat` never raise: the innermost handler is a constant -/
+theorem safeFormatFallback_total (ev : Legacy.Event) : Returns (safeFormatFallback ev) := by
+  unfold safeFormatFallback
+  exact returns_tryAll _ fun _ => returns_tryAll _ fun _ => returns_ret pathological
+
+/-- **`_safeFormat` raises exactly when its first attempt `fmtString % fmtDict` raises
+    `KeyboardInterrupt`, and then it raises that very exception** -/
+theorem safeFormat_raises_iff (ev : Legacy.Event) (s : St) (e : Exc) (s' : St) :
+    safeFormat ev s = (.error e, s') ↔
+      percentFormat ev s = (.error e, s') ∧ e.cls = .keyboardInterrupt := by
+  unfold safeFormat tryAllButKI
+  rcases hp : percentFormat ev s with ⟨r, s1⟩
+  cases r with
+  | ok t => simp
+  | error e1 =>
+    by_cases hk : e1.cls = .keyboardInterrupt
+    · simp only [hk, if_true]
+      constructor
+      · intro h; cases h; exact ⟨rfl, hk⟩
+      · intro h; exact h.1
+    · simp only [hk, if_false]
+      obtain ⟨t, s2, hf⟩ := safeFormatFallback_total ev s1
+      rw [hf]
+      constructor
+      · intro h; cases h
+      · intro h; obtain ⟨h1, h2⟩ := h; cases h1; exact absurd h2 hk
+
+/-- `_safeFormat` returns a text whenever the first `%` does not end in `KeyboardInterrupt` -/
+theorem safeFormat_total (ev : Legacy.Event) (s : St)
+    (h : ∀ e s', percentFormat ev s = (.error e, s') → e.cls ≠ .keyboardInterrupt) :
+    ∃ t s', safeFormat ev s = (.ok t, s') := by
+  rcases hs : safeFormat ev s with ⟨r, s'⟩
+  cases r with
+  | ok t => exact ⟨t, s', rfl⟩
+  | error e =>
+    obtain ⟨h1, h2⟩ := (safeFormat_raises_iff ev s e s').1 hs
+    exact absurd h2 (h e s' h1)
+
+/-- the event reaches `_safeFormat`: empty `message`, not (isError with a `failure`), a `format` key -/
+def ReachesFormat (ev : Legacy.Event) : Prop :=
+  ev.message = [] ∧ ¬(ev.isError = true ∧ ev.failure.isSome = true) ∧ ev.format ≠ .absent
+
+/-- `textFromEventDict` on an event that reaches `_safeFormat` is `_safeFormat`'s text -/
+theorem textFromEventDict_eq_of_reaches (ev : Legacy.Event) (h : ReachesFormat ev) :
+    textFromEventDict ev = (safeFormat ev >>= fun t => ret (some t)) := by
+  obtain ⟨hm, he, hf⟩ := h
+  unfold textFromEventDict
+  rw [hm]
+  rcases hi : ev.isError with _ | _ <;> rcases hfa : ev.failure with _ | f <;>
+    rcases hfo : ev.format with _ | _ | _ | _ <;> simp_all <;> rfl
+
+/-- `textFromEventDict` on an event that does not reach `_safeFormat` never raises:
+    the `message` join, the isError/failure/why branch and "don't know how to log this" -/
+theorem textFromEventDict_total_without_format (ev : Legacy.Event) (h : ¬ReachesFormat ev) :
+    Returns (textFromEventDict ev) := by
+  unfold textFromEventDict
+  split
+  · rename_i hm
+    split
+    · exact returns_bind (whyText_total _) fun w =>
+        returns_bind (legacyTraceback_total _) fun tb => returns_ret _
+    · rename_i hne
+      split
+      · exact returns_ret _
+      · rename_i hf
+        exfalso
+        apply h
+        refine ⟨hm, ?_, hf⟩
+        intro ⟨h1, h2⟩
+        rcases hfa : ev.failure with _ | f
+        · simp [hfa] at h2
+        · exact hne f h1 hfa
+  · exact returns_bind (safeStrAll_total _) fun ts => returns_ret _
+
+/-- **every raising run of `textFromEventDict` is the recorded finding**: it raises iff the event
+    reaches `_safeFormat` and the first `fmtString % fmtDict` raises `KeyboardInterrupt`; what it
+    raises is that exception. -/
+theorem textFromEventDict_raises_iff (ev : Legacy.Event) (s : St) (e : Exc) (s' : St) :
+    textFromEventDict ev s = (.error e, s') ↔
+      ReachesFormat ev ∧ percentFormat ev s = (.error e, s') ∧ e.cls = .keyboardInterrupt := by
+  by_cases hr : ReachesFormat ev
+  · rw [textFromEventDict_eq_of_reaches ev hr]
+    show Twisted.Log.Format.bind (safeFormat ev) _ s = _ ↔ _
+    unfold Twisted.Log.Format.bind
+    rcases hs : safeFormat ev s with ⟨r, s1⟩
+    cases r with
+    | ok t =>
+      constructor
+      · intro h; cases h
+      · intro ⟨_, h1, h2⟩
+        have := (safeFormat_raises_iff ev s e s').2 ⟨h1, h2⟩
+        rw [hs] at this; cases this
+    | error e1 =>
+      constructor
+      · intro h
+        cases h
+        exact ⟨hr, (safeFormat_raises_iff ev s e s').1 hs⟩
+      · intro ⟨_, h1, h2⟩
+        have := (safeFormat_raises_iff ev s e s').2 ⟨h1, h2⟩
+        rw [hs] at this; cases this; rfl
+  · constructor
+    · intro h
+      obtain ⟨a, s2, h2⟩ := textFromEventDict_total_without_format ev hr s
+      rw [h2] at h; cases h
+    · intro ⟨h, _⟩; exact absurd h hr
+
+/-- **C55, legacy path**: `textFromEventDict` returns a text or `None` and does not raise — for
+    every legacy event dict and every state (tape) from which the first `fmtString % fmtDict` of
+    `_safeFormat` does not end in `KeyboardInterrupt` (the recorded finding, see
+    `textFromEventDict_counterexample`; no other exception class, at no other place, escapes). -/
+theorem textFromEventDict_total (ev : Legacy.Event) (s : St)
+    (h : ∀ e s', percentFormat ev s = (.error e, s') → e.cls ≠ .keyboardInterrupt) :
+    ∃ r s', textFromEventDict ev s = (.ok r, s') := by
+  rcases hs : textFromEventDict ev s with ⟨r, s'⟩
+  cases r with
+  | ok r => exact ⟨r, s', rfl⟩
+  | error e =>
+    obtain ⟨_, h1, h2⟩ := (textFromEventDict_raises_iff ev s e s').1 hs
+    exact absurd h2 (h e s' h1)
+
+/-- the hypothesis of `textFromEventDict_total` holds for every tape none of whose outcomes raises
+    `KeyboardInterrupt`: then `textFromEventDict` returns a text or `None`, whatever else the
+    values do (any other class, BaseException-only ones included, exceptions whose `str` raises —
+    even `KeyboardInterrupt` from the `str` of such an exception, which only handlers evaluate) -/
+theorem textFromEventDict_total_of_noKI_tape (ev : Legacy.Event) (tape : List Outcome)
+    (trace : List Call) (h : TapeNoKI tape) :
+    ∃ r s', textFromEventDict ev ⟨tape, trace⟩ = (.ok r, s') :=
+  textFromEventDict_total ev ⟨tape, trace⟩ fun e s' he =>
+    (noKI_percentFormat ev ⟨tape, trace⟩ h).2 e (by rw [he])
+
+def raisesClsOpt (r : Except Exc (Option Text) × St) (c : ExcClass) : Bool :=
+  match r with
+  | (.error e, _) => e.cls == c
+  | _ => false
+
+def lev0 : Legacy.Event := ⟨[], false, .absent, none, none, []⟩
+
+/-- **the finding**: `{'message': (), 'isError': 0, 'format': '%(a)s', 'a': <str raises
+    KeyboardInterrupt>}` — `textFromEventDict` raises KeyboardInterrupt -/
+theorem textFromEventDict_counterexample :
+    raisesClsOpt (textFromEventDict { lev0 with format := .str [.keyed "a" 0 .s], extras := [("a", .hostile)] }
+      ⟨[.raises ⟨.keyboardInterrupt, .good []⟩], []⟩) .keyboardInterrupt = true := by
+  decide
+
+/-- … also through `repr` of the whole dict (`'%s' % eventDict`) and through a bytes format -/
+theorem textFromEventDict_counterexample_dict_repr :
+    raisesClsOpt (textFromEventDict { lev0 with format := .str [.pos 0 .s], extras := [("a", .hostile)] }
+      ⟨[.raises ⟨.keyboardInterrupt, .good []⟩], []⟩) .keyboardInterrupt = true ∧
+    raisesClsOpt (textFromEventDict { lev0 with format := .bytes [.pos 0 .r], extras := [("a", .hostile)] }
+      ⟨[.raises ⟨.keyboardInterrupt, .good []⟩], []⟩) .keyboardInterrupt = true := by
+  decide
+
+/-! non-vacuity of the legacy theorems -/
+
+-- any other BaseException-only class from the first `%` is swallowed; then `repr(eventDict)` raises
+-- KeyboardInterrupt *inside the handler*: still a text (second fallback)
+example : isSome (textFromEventDict { lev0 with format := .str [.keyed "a" 0 .s], extras := [("a", .hostile)] }
+    ⟨[.raises ⟨.systemExit, .good []⟩, ki], []⟩) (mark lostFmtMark) = true := by decide
+
+-- a hostile format object whose repr always raises: the constant third fallback
+example : isSome (textFromEventDict { lev0 with format := .other .hostile } ⟨[ki, ki], []⟩)
+    "PATHOLOGICAL ERROR IN BOTH FORMAT STRING AND MESSAGE DETAILS, MESSAGE LOST" = true := by decide
+
+-- the ordinary path is not trivialised: literal with a `%`, width, repr, ascii, str of the whole dict
+example : isSome (textFromEventDict
+    { lev0 with format := .str [.lit "x%".toList, .keyed "a" 4 .s, .keyed "b" 0 .r, .keyed "c" 0 .a],
+                extras := [("a", .text "é".toList), ("b", .text "q\n".toList), ("c", .hostile)] }
+    ⟨[.text "€".toList], []⟩) "x%   é'q\\n'\\u20ac" = true := by decide
+example : isSome (textFromEventDict { lev0 with format := .str [.pos 3 .s, .lit "!".toList], extras := [("a", .hostile)] }
+    ⟨[.text "r".toList], []⟩) ("  " ++ mark dictMark ++ "!") = true := by decide
+
+-- a bytes format is not returned as bytes (the repaired `_safeFormat`): "Invalid format string …"
+example : isSome (textFromEventDict { lev0 with format := .bytes [.lit "x".toList] } ⟨[], []⟩)
+    (mark invalidMark) = true := by decide
+
+-- isError + failure: `str(why)` raises KeyboardInterrupt, getTraceback returns None (raised TypeError
+-- before the repair): a text with both fallbacks
+example : isSome (textFromEventDict { lev0 with isError := true, failure := some .hostile, why := some .hostile }
+    ⟨[ki, .none], []⟩)
+    (mark safeStrMark ++ "\n(unable to obtain traceback): getTraceback returned NoneType, not str") = true := by decide
+
+-- the message tuple: every element through `safe_str`
+example : isSome (textFromEventDict { lev0 with message := [.hostile, .text "b".toList, .none, .hostile] }
+    ⟨[ki, .text "s".toList], []⟩) (mark safeStrMark ++ " b None s") = true := by decide
+
+-- nothing to log: None
+example : isNone (textFromEventDict { lev0 with isError := true } ⟨[], []⟩) = true := by decide
+
+-- the tape hypothesis is satisfiable by hostile tapes
+example : TapeNoKI [.raises ⟨.systemExit, .bad .keyboardInterrupt⟩, .none, .obj, .raises ⟨.hostileBase, .nonText⟩] := by
+  intro o ho
+  simp only [List.mem_cons, List.not_mem_nil, or_false] at ho
+  rcases ho with rfl | rfl | rfl | rfl <;> simp [OutcomeNoKI]
+
+/-! the legacy path before the repair of this round: `getTraceback()` returning a non-text made
+`why + "\n" + traceback` raise TypeError -/
+
+def legacyTracebackOld (f : Val) : M Val :=
+  tryAll (getTraceback f) (fun e => do
+    let t ← safeStrExc e
+    ret (.text (unableLegacyTb ++ t)))
+
+def textFromEventDictErrorBranchOld (ev : Legacy.Event) (f : Val) : M (Option Text) := do
+  let why ← whyText ev.why
+  let tb ← legacyTracebackOld f
+  let tb ← needText tb                  -- `why + "\n" + traceback`: unguarded
+  ret (some (why ++ '\n' :: tb))
+
+theorem unfixed_legacy_traceback_nontext_raises :
+    raisesClsOpt (textFromEventDictErrorBranchOld { lev0 with isError := true, failure := some .hostile } .hostile
+      ⟨[.none], []⟩) .typeError = true ∧
+    isSome (textFromEventDict { lev0 with isError := true, failure := some .hostile } ⟨[.none], []⟩)
+      "Unhandled Error\n(unable to obtain traceback): getTraceback returned NoneType, not str" = true := by
+  decide
+
+end LegacyPath
+
+/-! ### The classic log line end to end: what `log_time`, `log_system`, `log_level` turn into -/
+
+theorem bind_of_ok {α β} {m : M α} {f : α → M β} {s : St} {a : α} {s1 : St}
+    (h : m s = (.ok a, s1)) : (m >>= f) s = f a s1 := by
+  show Twisted.Log.Format.bind m f s = _
+  simp only [Twisted.Log.Format.bind, h]
+
+theorem bind_ok_inv {α β} {m : M α} {f : α → M β} {s : St} {b : β} {s' : St}
+    (h : (m >>= f) s = (.ok b, s')) : ∃ a s1, m s = (.ok a, s1) ∧ f a s1 = (.ok b, s') := by
+  change Twisted.Log.Format.bind m f s = _ at h
+  unfold Twisted.Log.Format.bind at h
+  rcases hm : m s with ⟨r, s1⟩
+  rw [hm] at h
+  cases r with
+  | ok a => exact ⟨a, s1, rfl, h⟩
+  | error e => cases h
+
+/-- the timestamp part of the classic line is a text followed by one space; with the default
+    `formatTime` the text is the formatted time or `-` (missing / `None` / unusable `log_time`) -/
+theorem timeStampPart_shape (ev : Event) (fl : Flags) (fn : TimeFn) (h : fl.includeTimestamp = true)
+    (s : St) :
+    ∃ t s', timeStampPart ev fl fn s = (.ok (t ++ [' ']), s') ∧
+      (fn = .default → t = ['-'] ∨ t = timeMark) := by
+  unfold timeStampPart
+  simp only [h, if_true]
+  unfold tryAll
+  split
+  · rename_i a s' hm
+    obtain ⟨v, s1, hv, h2⟩ := bind_ok_inv hm
+    obtain ⟨t, s2, ht, h3⟩ := bind_ok_inv h2
+    cases h3
+    refine ⟨t, _, rfl, ?_⟩
+    intro hfn
+    subst hfn
+    cases v with
+    | none => cases ht
+    | hostile => cases ht
+    | text t' =>
+      cases ht
+      rcases hT : ev.time with _ | _ | _ | _ | _ | _ | w
+      all_goals (simp only [formatTime, hT, ret, raise] at hv)
+      all_goals (first | (cases hv; simp) | (cases hv) | skip)
+      cases w <;> simp only [ret, raise] at hv <;> cases hv
+      simp
+  · exact ⟨['-'], _, rfl, fun _ => Or.inl rfl⟩
+
+/-- the system part is `[` system `] ` -/
+theorem systemPart_shape (ev : Event) (fl : Flags) (h : fl.includeSystem = true) (s : St) :
+    ∃ sys s', systemPart ev fl s = (.ok ('[' :: sys ++ [']', ' ']), s') := by
+  unfold systemPart
+  simp only [h, if_true]
+  obtain ⟨sys, s', hs⟩ := formatSystem_total ev s
+  exact ⟨sys, s', by rw [bind_of_ok hs]; rfl⟩
+
+/-- **the classic log line, end to end**: `formatEventAsClassicLogText` returns `None` (no text
+    to log) or exactly `timeStamp + " [" + system + "] " + eventText` with embedded newlines
+    indented and a final newline — for every event (any `log_time`, `log_system`, `log_level`,
+    `log_namespace`), the default or any hostile `formatTime`, and every tape. -/
+theorem formatEventAsClassicLogText_structure (ev : Event) (fn : TimeFn) (s : St) :
+    (∃ s', formatEventAsClassicLogText ev fn s = (.ok none, s')) ∨
+    ∃ ts sys body s', body ≠ [] ∧ (fn = .default → ts = ['-'] ∨ ts = timeMark) ∧
+      formatEventAsClassicLogText ev fn s =
+        (.ok (some (indentNewlines (ts ++ ' ' :: '[' :: sys ++ ']' :: ' ' :: body) ++ ['\n'])), s') := by
+  obtain ⟨t0, s0, h0⟩ := formatEventInner_total ev s
+  obtain ⟨t1, s1, h1⟩ := withTraceback_total ev ⟨true, true, true⟩ t0 s0
+  unfold formatEventAsClassicLogText eventAsText
+  by_cases hemp : t1.isEmpty = true
+  · left
+    refine ⟨s1, ?_⟩
+    rw [bind_of_ok (by rw [bind_of_ok h0, bind_of_ok h1]; simp only [hemp, if_true]; rfl)]
+    simp only [hemp, if_true]; rfl
+  · right
+    obtain ⟨ts, s2, h2, hts⟩ := timeStampPart_shape ev ⟨true, true, true⟩ fn rfl s1
+    obtain ⟨sys, s3, h3⟩ := systemPart_shape ev ⟨true, true, true⟩ rfl s2
+    refine ⟨ts, sys, t1, s3, ?_, hts, ?_⟩
+    · intro h; apply hemp; simp [h]
+    · rw [bind_of_ok (a := ts ++ [' '] ++ ('[' :: sys ++ [']', ' ']) ++ t1) (s1 := s3)
+        (by rw [bind_of_ok h0, bind_of_ok h1]; simp only [hemp, Bool.false_eq_true, if_false]; rw [bind_of_ok h2, bind_of_ok h3]; rfl)]
+      have hne : (ts ++ [' '] ++ ('[' :: sys ++ [']', ' ']) ++ t1).isEmpty = false := by
+        cases ts <;> simp
+      simp only [hne]
+      simp [ret]
+
+/-- what the system part can be: `str(log_system)` when that key holds a value other than `None`
+    and its `str` works; otherwise `namespace#level`; in every failing case `UNFORMATTABLE` -/
+theorem formatSystem_cases (ev : Event) (s : St) :
+    ∃ sys s', formatSystem ev s = (.ok sys, s') ∧
+      (sys = "UNFORMATTABLE".toList ∨
+       (∃ v, ev.system = some v ∧ v ≠ .none ∧ pyStr v s = (.ok sys, s')) ∨
+       ((ev.system = none ∨ ev.system = some .none) ∧ ∃ a b, sys = a ++ '#' :: b)) := by
+  unfold formatSystem tryAll
+  split
+  · rename_i a s' hm
+    refine ⟨a, s', rfl, ?_⟩
+    rcases hsys : ev.system with _ | v
+    · right; right
+      refine ⟨Or.inl rfl, ?_⟩
+      rw [hsys] at hm
+      simp only at hm
+      rcases hl : ev.level with _ | (_ | _ | _) <;> rw [hl] at hm <;> simp only at hm
+      all_goals
+        obtain ⟨ln, s1, _, h2⟩ := bind_ok_inv hm
+        obtain ⟨x, s2, _, h3⟩ := bind_ok_inv h2
+        obtain ⟨y, s3, _, h4⟩ := bind_ok_inv h3
+        cases h4
+        exact ⟨x, y, rfl⟩
+    · cases v with
+      | none =>
+        right; right
+        refine ⟨Or.inr rfl, ?_⟩
+        rw [hsys] at hm
+        simp only at hm
+        rcases hl : ev.level with _ | (_ | _ | _) <;> rw [hl] at hm <;> simp only at hm
+        all_goals
+          obtain ⟨ln, s1, _, h2⟩ := bind_ok_inv hm
+          obtain ⟨x, s2, _, h3⟩ := bind_ok_inv h2
+          obtain ⟨y, s3, _, h4⟩ := bind_ok_inv h3
+          cases h4
+          exact ⟨x, y, rfl⟩
+      | text t =>
+        right; left
+        rw [hsys] at hm
+        exact ⟨_, rfl, by simp, hm⟩
+      | hostile =>
+        right; left
+        rw [hsys] at hm
+        exact ⟨_, rfl, by simp, hm⟩
+  · exact ⟨_, _, rfl, Or.inl rfl⟩
+
+-- non-vacuity: a real time stamp, a level with a name, a multi-line traceback
+example : isSome (formatEventAsClassicLogText
+    { ev0 with time := .good, level := some .hostile, namespace_ := some (.text "ns".toList), failure := some .hostile }
+    .default ⟨[.text "tb\nx".toList, .text "warn".toList], []⟩)
+    (mark timeMark ++ " [ns#warn] hello\n\ttb\n\tx\n") = true := by decide
 
 end TwistedProps.C55
